@@ -17,7 +17,7 @@ Judge(t) ==
   LET r == ParseTape(t.buffer)
       cl == [wellformed |-> r.ok,
              contents |-> r.ok => SameFiles(r.files, t.files),
-             blocks |-> r.ok => r.nblocks = SumBlocks(t.files, 1),
+             blocks |-> r.ok => r.nblocks >= SumBlocks(t.files, 1),      \* never fewer blocks than 2 + ceil(len / 255) per file (more, smaller ones are within the property)
              leaders |-> r.ok => r.noleader = 0,
              roundtrip |-> t.listed.ok /\ SameFiles(t.listed.files, t.files)]
       d == IF t.listed.ok THEN FirstDiff(t.listed.files, t.files) ELSE 1
